@@ -331,7 +331,7 @@ def step (ss : Sess) (line : String) : Sess × String :=
         | .released i k => s!"released {i}/{k}"
         | .decoded i k => s!"decoded {i}/{k}"
       let o2s (o : Option Nat) : String := match o with | some i => toString i | none => "-"
-      let armed := st.objs.filter (fun o => o.start.isSome) |>.map (fun o => toString o.id)
+      let armed := (List.range st.objs.length).filter (fun i => match st.objs[i]? with | some o => o.start.isSome | none => false) |>.map toString
       ({ ss with tmr := st }, s!"{"; ".intercalate (news.map showO)} | disp {o2s st.dispLast} dec {o2s st.decLast} tq [{",".intercalate (st.timerQ.map toString)}] armed [{",".intercalate armed}]")
     | none => (ss, "bad-op")
   -- universal fallback decoder: universal <tolnum> <tolden> <ints>
